@@ -317,7 +317,7 @@ pub fn run(p: &Params) -> Report {
                     rep.count("skipped:outer_join_of_protected_tables");
                     continue;
                 }
-                if q.features.contains(&"dp_over_dp") {
+                if q.features.contains(&"dp_over_dp") || q.features.contains(&"nested_aggregation") || q.features.contains(&"join_of_dp_subqueries") {
                     // the inner aggregation is itself noised and thresholded: exactness is about one level
                     rep.count("skipped:dp_over_dp");
                     continue;
